@@ -78,3 +78,70 @@ Theorem C11_exec_unfixed_refuted :
                  reads g i (c_dest g) = true /\ observe_exec_unfixed g i st 1 = Err.
 Proof. exact exec_unfixed_refuted. Qed.
 Print Assumptions C11_exec_unfixed_refuted.
+
+(* ==== histories: long-lived plugins read the role map through ONE long-lived home-chain poller (model: Pollers.v,
+   C18) whose configuration changes between rounds.  [hrun O d f evs]: the answers of a history evs of poller events
+   (Start, completed fetches — successful, failed, partial —, reads, Close) interleaved with plugin rounds, every
+   round served from the poller state of that moment (Model/RolesHist.v).  [cfg_at O d f evs k]: the Roles configuration
+   of the most recent successfully fetched home-chain configuration among the poller events before position k.
+   The theorems hold for EVERY event list (induction over it, through the C18 snapshot theorem). ==== *)
+Require Import Verif.Model.Pollers Verif.Model.RolesHist Verif.Proofs.PollersP Verif.Proofs.RolesHistP.
+
+(* a round of any history is answered from the latest successfully fetched configuration alone: nothing that was
+   polled, looked up, observed or validated earlier enters *)
+Theorem C11_history_round : forall O d f evs k e,
+  nth_error evs k = Some e ->
+  nth_error (hrun O d f evs) k = Some (round_out (cfg_at O d f evs k) e).
+Proof. exact hist_round. Qed.
+Print Assumptions C11_history_round.
+
+(* commit: the honest observation of round k is produced, and every validation round m that sees the same latest
+   configuration (failed polls, re-polls of an unchanged configuration and other rounds may lie between) accepts it —
+   whatever the role map was before round k *)
+Theorem C11_history_commit : forall O d f evs k i st phase retry,
+  nth_error evs k = Some (HObsC i st phase retry) ->
+  cfg_ok (cfg_at O d f evs k) i = true -> values_ok st = true -> (retry = true -> phase = 1%N) ->
+  exists ob,
+    nth_error (hrun O d f evs) k = Some (Some (OCommit (Ok ob))) /\
+    forall m, nth_error evs m = Some (HValC retry i ob) -> cfg_at O d f evs m = cfg_at O d f evs k ->
+              nth_error (hrun O d f evs) m = Some (Some (OVerdict true)).
+Proof. exact hist_commit_honest. Qed.
+Print Assumptions C11_history_commit.
+
+(* execute: whatever round k produces is accepted by every validation round that sees the same latest configuration *)
+Theorem C11_history_exec : forall O d f evs k i st phase ob,
+  nth_error evs k = Some (HObsE i st phase) ->
+  cfg_ok (cfg_at O d f evs k) i = true -> values_ok st = true -> pending_known (cfg_at O d f evs k) st = true ->
+  nth_error (hrun O d f evs) k = Some (Some (OExec (Ok ob))) ->
+  forall m, nth_error evs m = Some (HValE i ob) -> cfg_at O d f evs m = cfg_at O d f evs k ->
+            nth_error (hrun O d f evs) m = Some (Some (OVerdict true)).
+Proof. exact hist_exec_honest. Qed.
+Print Assumptions C11_history_exec.
+
+(* the role map every getter of the poller / ChainSupport shows after ANY event list is the one of the latest
+   successfully fetched configuration (what the observing side — SupportsDestChain — and the validating side —
+   SupportedChains — see can never drift apart) *)
+Theorem C11_history_role_map : forall reset evs O d f,
+  let v := views (prun home_fetch home_derive reset home_init evs) in
+  let g := cfg_of_home O d f (home_cfg_of evs) in
+  (forall p ch, memN ch (get_supported_chains v p) = reads g p ch) /\
+  (forall o, match get_chain_config v d with
+             | None => None
+             | Some cc => if memN o O then Some (memN o (cc_nodes cc)) else None
+             end = supports_dest g o) /\
+  (forall ch, memN ch (get_known_chains v) = memN ch (home_chains g)) /\
+  (forall ch, option_map Z.of_N (alookup ch (get_fchain v)) = alookup ch (home_fchain g)) /\
+  (forall ch, option_map cc_pair (get_chain_config v ch) = alookup ch (c_chains g)).
+Proof. exact api_latest. Qed.
+Print Assumptions C11_history_role_map.
+
+(* non-vacuity: after a change that takes chain 5 from oracle 2, the hypotheses of C11_history_commit hold for
+   oracle 2 on the new role map *)
+Theorem C11_history_example :
+  let st := mkRs true (fun _ _ => false) false [] [5%N] rmn_none [] [] [] [] [] [] [] [] [] [] in
+  let evs := [HPoller EStart; ex_poll ex_cfgA; ex_poll ex_cfgB; HObsC 2 st 0 false] in
+  nth_error evs 3 = Some (HObsC 2 st 0 false) /\
+  cfg_ok (cfg_at ex_O 9 9 evs 3) 2 = true /\ reads (cfg_at ex_O 9 9 evs 3) 2 5 = false /\
+  reads (cfg_at ex_O 9 9 evs 2) 2 5 = true.
+Proof. exact hist_commit_honest_example. Qed.
+Print Assumptions C11_history_example.
